@@ -1,6 +1,7 @@
 /-
   C16 — volume is a pure gain in decibels.
 -/
+import Jb.Proofs.EngineVolume
 import Jb.Proofs.Postfilter
 import Jb.Props.C20
 
@@ -73,5 +74,19 @@ theorem volume_frame (c : Condition K) (v : K) :
     c'.gvWeight = c.gvWeight ∧ c'.alignment = c.alignment ∧ c'.speed = c.speed ∧ c'.alpha = c.alpha ∧
     c'.beta = c.beta ∧ c'.halfTone = c.halfTone ∧ c'.stage = c.stage ∧ c'.useLogGain = c.useLogGain := by
   simp [Condition.setVolume]
+
+/-- **Volume is a pure gain of the whole synthesis** (pipeline model): with linear gain `g` every sample is `g` times the
+    gain-1 sample — durations, trajectories and vocoder state never see the volume. -/
+theorem synthesize_gain [FloorRing K] [MlpgConsts K] (fx : Fix) (c : Condition K) (g : K) (b : Bool) (inp : EngineIn K) :
+    engineSynthesize fx { c with volume := g } b inp =
+      (engineSynthesize fx { c with volume := 1 } b inp).map fun w => w.map (· * g) :=
+  engineSynthesize_volume fx c g b inp
+
+/-- … in decibels: `set_volume(v)` multiplies the 0 dB waveform by `exp(v·ln10/20) = 10^(v/20)`. -/
+theorem synthesize_volume_db [FloorRing K] [MlpgConsts K] (hexp0 : Transc.exp (0 : K) = 1) (fx : Fix) (c : Condition K) (v : K)
+    (b : Bool) (inp : EngineIn K) :
+    engineSynthesize fx (c.setVolume v) b inp =
+      (engineSynthesize fx (c.setVolume 0) b inp).map fun w => w.map (· * Transc.exp (v * Consts.db)) :=
+  engineSynthesize_setVolume hexp0 fx c v b inp
 
 end Jb.C16
